@@ -9,6 +9,7 @@ import OrdModel.Proofs.IndexLiftSatBlock
 import OrdModel.Proofs.IndexLiftSatExactChain
 import OrdModel.Proofs.IndexLiftSatRare
 import OrdModel.Proofs.IndexLiftSatRowsChain
+import OrdModel.Proofs.IndexLiftSatRange
 /-!
 # C02 — every mined sat is in exactly one place and all sat lookups agree
 
@@ -113,10 +114,8 @@ theorem c02_place_unique (st : State) (inv : SatsPartitioned st) (sat : Nat) (p 
 
 /-- Every hit `find_range` returns is a genuine overlap: `size` consecutive sats starting at
 `start`, inside the requested range, sitting at consecutive offsets of the reported satpoint;
-the sizes never exceed the requested length.  (`_partial`: soundness, on every state; that
-*all* overlaps are returned and the sizes sum to the request when everything is mined is not
-proved — it is compared with the real code and follows on a partitioned table from the
-`remaining_sats` accounting in `findRangeEntry_sound`.) -/
+the sizes never exceed the requested length.  (`_partial`: this is the soundness half, on every
+state; the completeness half is `c02_find_range_complete` / `c02_find_range_mined_covered`.) -/
 theorem c02_find_range_sound_partial (st : State) (rs re : Nat) (hits : List FindRangeOutput)
     (h : findRange st rs re = .ok (some hits)) :
     rs ≤ re ∧ (hits.map (·.size)).sum ≤ re - rs ∧ ∀ x ∈ hits, HitAt rs re st.utxo x := by
@@ -140,6 +139,30 @@ theorem c02_find_range_sound_partial (st : State) (rs re : Nat) (hits : List Fin
             exact ⟨hle', h1, h2⟩
           · cases h
           · cases h
+
+/-- **Completeness of `find_range`** on every partitioned table (every reachable state,
+`c02_reachable_partitioned`): for a request whose last sat is of an indexed height, `find_range`
+does not trip over its `remaining_sats` accounting (the `-=` never underflows, the `break` skips
+nothing) and the sizes of the hits it returns add up to the number of table sats inside the
+request.  With soundness (`c02_find_range_sound_partial`: every hit is a genuine overlap, inside
+the request, at the reported satpoint) this is "all overlaps are returned". -/
+theorem c02_find_range_complete (st : State) (inv : SatsPartitioned st) (rs re : Nat) (hle : rs ≤ re)
+    (h0 : re ≠ 0) (hs : epochSubsidy (satEpoch (re - 1)) ≠ 0) (hh : satHeight (re - 1) < st.height) :
+    ∃ hits, findRange st rs re = .ok (some hits) ∧
+      (hits.map (·.size)).sum = ((allSats st.utxo).filter (fun x => decide (rs ≤ x ∧ x < re))).length ∧
+      ∀ x ∈ hits, HitAt rs re st.utxo x := by
+  obtain ⟨hits, hf, hsum⟩ := findRange_complete st inv rs re hle h0 hs hh
+  exact ⟨hits, hf, hsum, (c02_find_range_sound_partial st rs re hits hf).2.2⟩
+
+/-- … and on an exactly partitioned table (chains without duplicate txids,
+`c02_reachable_exact`) a non-empty request of mined sats is covered completely: the sizes of the
+hits add up to the length of the request. -/
+theorem c02_find_range_mined_covered (st : State) (inv : SatsPartitionedExact st) (rs re : Nat) (hlt : rs < re)
+    (hm : re ≤ startingSat st.height) :
+    ∃ hits, findRange st rs re = .ok (some hits) ∧ (hits.map (·.size)).sum = re - rs ∧
+      ∀ x ∈ hits, HitAt rs re st.utxo x := by
+  obtain ⟨hits, hf, hsum⟩ := findRange_exact st inv rs re hlt hm
+  exact ⟨hits, hf, hsum, (c02_find_range_sound_partial st rs re hits hf).2.2⟩
 
 /-- A range reaching into a block that is not indexed yet is reported as not found. -/
 theorem c02_find_range_unmined (st : State) (rs re : Nat) (h0 : re ≠ 0)
